@@ -26,7 +26,12 @@ type op struct {
 	d    int64
 }
 
-var opAlpha = []op{{"s", 1}, {"s", 2}, {"s", 5}, {"f", 1}, {"f", 2}, {"f", 5}, {"snap", 0}, {"total", 0}}
+var (
+	opSmall = []op{{"s", 1}, {"s", 2}, {"s", 5}, {"f", 1}, {"f", 2}, {"f", 5}, {"snap", 0}, {"total", 0}}
+	// durations whose sums pass 2^53 ns (about 104 days of accumulated iteration time), where
+	// float64 no longer holds every integer; five of the largest still fit int64
+	opLarge = []op{{"s", 1}, {"s", 1<<53 + 1}, {"s", 1 << 60}, {"f", 3}, {"f", 1<<53 + 2}, {"snap", 0}, {"total", 0}}
+)
 
 type model struct {
 	life   map[string][]int64
@@ -65,8 +70,14 @@ func cmpSnap(r *hlib.Rec, what string, got progress.IterationDurationsSnapshot, 
 	}
 }
 
-func aggregationSuite(depth int) hlib.Suite {
-	return hlib.Suite{Name: fmt.Sprintf("aggregation/all-operation-sequences<=%d", depth), Weight: 3, Run: func(r *hlib.Rec) {
+func aggregationSuite(depth int) hlib.Suite { return aggregationOver("", opSmall, depth, 3) }
+
+func aggregationLarge(depth int) hlib.Suite {
+	return aggregationOver("/durations-beyond-2^53ns", opLarge, depth, 1)
+}
+
+func aggregationOver(tag string, opAlpha []op, depth, weight int) hlib.Suite {
+	return hlib.Suite{Name: fmt.Sprintf("aggregation%s/all-operation-sequences<=%d", tag, depth), Weight: weight, Run: func(r *hlib.Rec) {
 		seq := make([]int, 0, depth)
 		var rec func()
 		run := func() {
@@ -132,7 +143,7 @@ func aggregationSuite(depth int) hlib.Suite {
 			}
 		}
 		rec()
-		r.Sample(map[string]any{"ops": "Record(success|fail, d in {1,2,5}), Snapshot, Total", "depth": depth})
+		r.Sample(map[string]any{"ops": fmt.Sprintf("Snapshot, Total and Record over %v", opAlpha[:len(opAlpha)-2]), "depth": depth})
 	}}
 }
 
@@ -297,7 +308,7 @@ func suites(tier string) []hlib.Suite {
 	if tier != "quick" {
 		d = 8
 	}
-	return []hlib.Suite{aggregationSuite(d), measurementSuite(), progressSuite()}
+	return []hlib.Suite{aggregationSuite(d), aggregationLarge(d - 2), measurementSuite(), progressSuite()}
 }
 
 func main() { hlib.EnumMain("C17", suites) }
